@@ -443,6 +443,35 @@ func (u *Unit) enterLoopHead(st *State, fr *Frame, head *ssa.BasicBlock, li *loo
 			walk(c.Expr)
 		}
 	}
+	// ... and in call-site clauses of calls made inside the loop
+	if fr.contract != nil && len(st.frames) == 1 {
+		env := u.loopEnv(st, fr, head)
+		var walk func(e *Spec)
+		walk = func(e *Spec) {
+			if e == nil {
+				return
+			}
+			if e.Kind == SCall && e.A == nil && e.Name == "athead" && len(e.Args) == 1 {
+				if v, err := u.eval(st, env, e.Args[0]); err == nil {
+					if ls.atHead == nil {
+						ls.atHead = map[string]Val{}
+					}
+					ls.atHead[e.Args[0].String()] = v
+				}
+				return
+			}
+			walk(e.A)
+			walk(e.B)
+			walk(e.C)
+			for _, a := range e.Args {
+				walk(a)
+			}
+		}
+		for _, c := range fr.contract.CallSites {
+			walk(c.Clause.Expr)
+		}
+	}
+	fr.curLoop = ls
 	fr.loops[head] = ls
 	u.coverBlock(st, fr, head)
 	return !st.dead
